@@ -4,6 +4,7 @@ import (
 	"encoding/hex"
 	"strconv"
 	"strings"
+	"time"
 
 	"elkverif/hx"
 
@@ -56,6 +57,11 @@ func dumpTokens(toks []*token.Token) string {
 }
 
 func execLex(f []string) string {
+	// 2 s budget: a hanging lexer must answer `timeout` instead of blocking the check (see withBudget in rx.go)
+	return withBudget(2*time.Second, func() string { return execLex1(f) })
+}
+
+func execLex1(f []string) string {
 	if len(f) != 3 || f[0] != "tok" {
 		return "bad-op"
 	}
